@@ -469,6 +469,12 @@ class FKF:
                            [ q_[2], -q_[0], -q_[1]],
                            [-q_[2],  q_[1], -q_[0]]])               # (eq. 24)
             Sigma_eps = (self.Dt/2.0)**2 * Xi @ Sigma_g @ Xi.transpose()   # Process noise covariance (eq. 23)
+            if not (np.linalg.norm(acc[t]) > 0 and np.linalg.norm(mag[t]) > 0):
+                # No valid observation (sensor drop-out): propagate with the gyroscopes only
+                q = Phi @ q_
+                self.Pk = Phi @ self.Pk @ Phi.transpose() + Sigma_eps
+                Q[t] = q / np.linalg.norm(q)
+                continue
             # MEASUREMENT MODEL
             qy, J = self.measurement_quaternion_acc_mag(q_, acc[t], mag[t])
             Sigma_v = J @ Sigma_am @ J.transpose()                  # Measurement quaternion's covariance (eq. 26)
